@@ -35,6 +35,10 @@ pub fn run() {
         let pid = unsafe { libc::fork() };
         if pid == 0 {
             reset_calls();
+            if observe == "timeout_live" {
+                // the sender hangs for 300 ms right after the first fragment of a fragmented message (and dies at its next call)
+                delay_after_first(300_000);
+            }
             arm_kill(k);
             mark(&format!("send {}.P", id));
             let _ = tx.send(&tagged(7, 0, 64), vec![], vec![]);
@@ -47,15 +51,18 @@ pub fn run() {
         }
         drop(atts);
         drop(regions);
+        let live = observe == "timeout_live";
         let mut st = 0;
-        unsafe { libc::waitpid(pid, &mut st, 0) };
-        let killed = libc::WIFSIGNALED(st);
+        if !live {
+            unsafe { libc::waitpid(pid, &mut st, 0) };
+        }
+        let mut killed = libc::WIFSIGNALED(st);
         let mut sent_s = serde_json::Value::Null;
         // the survivor's message carries an endpoint of its own: it must arrive with exactly that attachment, whatever an abandoned
         // message before it had carried
         let (satt_tx, satt_rx) = platform::channel().unwrap();
         let mut idle_tx = None;
-        if survivor && observe == "timeout_idle" {
+        if survivor && (observe == "timeout_idle" || live) {
             idle_tx = Some(tx); // alive, silent during the observation
             drop(satt_tx);
         } else if survivor {
@@ -122,6 +129,37 @@ pub fn run() {
                     // the set still holds the member (if it was not closed): see that it is still connected
                     (log, None)
                 },
+                "timeout_live" => {
+                    // timed receives (100 ms) issued while the sender is still ALIVE: one of them takes the first fragment, waits for the
+                    // rest, and learns only 300 ms later - long after its own timeout - that the sender has died
+                    let rounds = 12;
+                    for _ in 0..rounds {
+                        let r = std::panic::catch_unwind(std::panic::AssertUnwindSafe(|| rx.try_recv_timeout(std::time::Duration::from_millis(100))));
+                        match r {
+                            Err(_) => {
+                                log.push(json!("Panic"));
+                                break;
+                            },
+                            Ok(Ok((d, mut ch, _))) => {
+                                for c in ch.iter_mut() {
+                                    drop(c.to_sender());
+                                }
+                                push(&mut log, &d);
+                            },
+                            Ok(Err(e)) => {
+                                let w = classify_recv(e);
+                                let stop = w != "Empty";
+                                if log.last().map(|l| l != &json!("Empty")).unwrap_or(true) || stop {
+                                    log.push(json!(w));
+                                }
+                                if stop {
+                                    break;
+                                }
+                            },
+                        }
+                    }
+                    (log, None)
+                },
                 "timeout_idle" => {
                     // the channel is connected (a sender survives) but nothing complete is queued: whatever the crashed sender left
                     // behind, a timed receive must wait its time before it says 'empty'
@@ -184,6 +222,10 @@ pub fn run() {
                 },
             }
         });
+        if live {
+            unsafe { libc::waitpid(pid, &mut st, 0) };
+            killed = libc::WIFSIGNALED(st);
+        }
         let survivor_probe = matches!(satt_rx.try_recv(), Ok((ref d, _, _)) if d[..] == [0x5A, 0x5A, 0x5A]);
         let (log, after, hang) = match res {
             Some((l, a)) => (l, a, false),
